@@ -12,12 +12,12 @@ static W vm_szmask(int sz) { return sz == 8 ? ~0UL : sz == 4 ? 0xffffffffUL : sz
 static W vm_n_ld(W a, int sz) { W c = *vm_cellp(a & ~7UL); if (sz == 8) return c; return (c >> ((a & 7UL) * 8)) & vm_szmask(sz); }
 static void vm_n_st(W a, W v, int sz) { W* p = vm_cellp(a & ~7UL); vm_written[(a >> 20) - 1][(a & 0xfffffUL) >> 3] = 1; if (sz == 8) { *p = v; return; } W sh = (a & 7UL) * 8, m = vm_szmask(sz) << sh; *p = (*p & ~m) | ((v << sh) & m); }
 static W vm_n_rmw(int op, W a, W v, int sz) { W o = vm_n_ld(a, sz); W n = op == 0 ? v : op == 1 ? o + v : op == 2 ? o - v : op == 3 ? (o & v) : op == 4 ? (o | v) : (o ^ v); vm_n_st(a, n & vm_szmask(sz), sz); return o; }
-static W vm_n_cas(W a, W e, W n, int sz, W* ok) { W o = vm_n_ld(a, sz); *ok = (o == e); if (o == e) vm_n_st(a, n, sz); return o; }
+static W vm_n_cas(W a, W e, W n, int sz) { W o = vm_n_ld(a, sz); vm_cas_ok = (o == e); if (o == e) vm_n_st(a, n, sz); return o; }
 static W vm_n_cas2(W a, W elo, W ehi, W nlo, W nhi) { W lo = vm_n_ld(a, 8), hi = vm_n_ld(a + 8, 8); if (lo == elo && hi == ehi) { vm_n_st(a, nlo, 8); vm_n_st(a + 8, nhi, 8); return 1; } return 0; }
 #define LD(s, a, z) vm_n_ld(a, z)
 #define ST(s, a, v, z) vm_n_st(a, v, z)
 #define RMW(s, op, a, v, z) vm_n_rmw(op, a, v, z)
-#define CAS(s, a, e, n, z, ok, weak) vm_n_cas(a, e, n, z, ok)
+#define CAS(s, a, e, n, z, weak) vm_n_cas(a, e, n, z)
 #define CAS2(s, a, elo, ehi, nlo, nhi) vm_n_cas2(a, elo, ehi, nlo, nhi)
 static W vm_native_malloc(int site, W size, int zero) {
   if (vm_nobj >= VM_MAXOBJ) { printf("too many objects\n"); exit(5); }
@@ -48,6 +48,9 @@ static W vm_self(void) { return vm_tid; }
 static void vm_fence(void) {}
 static void vm_abort(void) { printf("ASSERTION FAILED: abort() reached\n"); exit(7); }
 static void vm_spin(void) {}
+static void vm_park(void) {}
+static void vm_set_kt(W k) { vm_kt = k; }
+static W vm_is_parked(W t) { return 0; }
 static void vm_progress(void) {}
 static void vm_dump_allocs(void) {
   const char* p = getenv("VM_ALLOC_LOG");
@@ -63,3 +66,11 @@ static void vm_dump_allocs(void) {
   fclose(f);
 }
 static int vm_native_run(int argc, char** argv) { return vm_failed; }
+
+/* default environment stubs (documented contract only) */
+static W ext_fiber_poll_events(void) { return 0; }                       /* no event system in this scenario: nothing triggered */
+static W ext_fiber_poll_events_blocking(W s, W us) { vm_spin(); return 0; } /* idle kernel thread: an await point */
+static W ext_dlsym(W h, W name) { return 0; }
+static W ext_pthread_self(void) { return vm_kt + 1; }
+static W ext_pthread_equal(W a, W b) { return a == b; }
+static W ext_usleep(W us) { vm_spin(); return 0; }
